@@ -249,7 +249,7 @@ def handle (toks : List String) : Option String :=
     some s!"archive={digest arch}"
   -- clone <opts: s?v?b?|-> <pin hex|-> <archive hex> <prior hex> <seeds hex,hex|-> <decomp table hexstored:hexraw,..|->
   | [cmd, o, pin, arch, prior, seeds, table] => do
-    if cmd ≠ "clone" ∧ cmd ≠ "clone-ro" ∧ cmd ≠ "clone-rf" then none
+    if cmd ≠ "clone" ∧ cmd ≠ "clone-ro" ∧ cmd ≠ "clone-rf" ∧ cmd ≠ "clone-w" then none
     let short := cmd = "clone-ro"     -- result and output only
     let noWrites := cmd = "clone-rf"  -- result, output and fetch list
     let opts : CloneOpts := { seedOutput := o.contains 's', verifyOutput := o.contains 'v', blockDev := o.contains 'b'
@@ -269,6 +269,9 @@ def handle (toks : List String) : Option String :=
     let fetch := r.requests.filterMap fun q => match q with
       | .readChunks rs => some (joinWith "," (rs.map fun (o, s) => s!"{o}:{s}"))
       | _ => none
+    if cmd = "clone-w" then
+      some s!"result={res} out={digest r.output} writes={joinWith "," ((Spec.writesOf r.log).map fun (o, d) => s!"{o}.{digest d}")}"
+    else
     some s!"result={res} out={digest r.output}{if short then "" else if noWrites then s!" fetch={joinWith "|" fetch}" else s!" writes={joinWith "," ((Spec.writesOf r.log).map fun (o, d) => s!"{o}.{digest d}")} fetch={joinWith "|" fetch}"}"
   -- cli-clone <output state> <flags> <archive kind> : one row of C14's table on a model file system
   | ["cli-clone", outState, flags, akind] => do
@@ -291,6 +294,7 @@ def handle (toks : List String) : Option String :=
     let pin : Option Bytes :=
       if akind = "pin-mismatch" then some (hc.set 0 ((hc.getD 0 0) ^^^ 1))
       else if akind = "pin-prefix" then some (hc.take 4)
+      else if akind = "pin-permuted" then some hc.reverse
       else if akind = "pin-ok" then some hc else none
     let c : CloneCmd := ⟨⟨flags = "force", flags = "seed-output", false⟩, pin, "out", apath, []⟩
     let r := Cli.clone Blake2b.hash (fun _ b _ => some b) c fs
@@ -370,6 +374,19 @@ def handle (toks : List String) : Option String :=
       -- then every source chunk is fed once, in source order
       let fin := nids.eraseDups.foldl (fun s id => (s.feed id (chunkBytes id (sizes.getD id 0))).1) st'
       some s!"ret={ret} left={joinWith "." (left.map toString)} file={digest fin.file} log={joinWith "," (fin.log.map showIo)}"
+  -- hash <R|B> <window> <data> : the rolling hash driven as the chunker drives it (`init` until
+  -- `init_done`, then `input`); the 32-bit sum after every byte, digested (all of them for short data)
+  | ["hash", algo, window, data] => do
+    let w ← parseNat window
+    let h0 : Hasher := if algo = "R" then .roll (RollSum.new w) else .buz (BuzHash.new w)
+    let bytes ← parseData data
+    let (_, sums) := bytes.foldl (fun (acc : Hasher × List UInt32) b =>
+      let h' := if acc.1.initDone then acc.1.input b else acc.1.init b
+      (h', (UInt32.ofNat h'.sum.toNat) :: acc.2)) (h0, [])
+    let sums := sums.reverse
+    let le : Bytes := sums.flatMap fun (x : UInt32) => [x.toUInt8, (x >>> 8).toUInt8, (x >>> 16).toUInt8, (x >>> 24).toUInt8]
+    let shown := if sums.length ≤ 24 then joinWith "," (sums.map fun x => toString x.toNat) else "-"
+    some s!"sums={digest le} last={(sums.getLast?.map (·.toNat)).getD 0} all={shown}"
   -- chunk <config> <data> <read script> : model of the streaming chunker under that delivery
   | ["chunk", cfg, data, script] => do
     some (showChunks (chunkStream (← parseConfig cfg) (← parseData data) (← parseRdScript script)))
